@@ -154,7 +154,8 @@ def configurations(tier, seed):
                n_basis=[d, 1, 2 * d + 1][(i // 2) % 3], array_kind=['random', 'identity-rows', 'unnormalised'][i % 3],
                beta=BETAS[rng.randint(len(BETAS))], gamma=GAMMAS[rng.randint(len(GAMMAS))],
                batch_size=BATCH[rng.randint(len(BATCH))], max_iter=mi, output_iter=oi,
-               random_state=int(rng.randint(0, 1000)), data_seed=int(rng.randint(0, 2 ** 31 - 1)))
+               random_state=int(rng.randint(0, 1000)), data_seed=int(rng.randint(0, 2 ** 31 - 1)),
+               int_data=(i % 4 == 1))       # training points of integer dtype (a grid): the supplied FLOAT basis is still the basis in use
     if cfg['cls'] == 'SCML':
       cfg.update(n_triplets=max(d, 10), kind='pool')
     else:
@@ -185,6 +186,8 @@ def check_case(ml, cfg):
   else:
     data = make_labelled(rng, d, cfg['n_classes'], cfg['per_class'])
     kw.update(k_genuine=cfg['k_genuine'], k_impostor=cfg['k_impostor'])
+  if cfg.get('int_data'):
+    data = (np.round(np.asarray(data[0]) * 4).astype(np.int64),) + tuple(data[1:])
   if cfg['basis'] == 'array':
     nb = cfg['n_basis']
     if cfg['array_kind'] == 'identity-rows':
